@@ -133,7 +133,7 @@ def run(ctx, only=None):
             ctx.violation(f'{job["_opt"]}|{job["_hist"] if job["_hist"] in ("max", "baseline") else "single"}|{cls}',
                           f'{sid}: {len(tests)} emitted test(s) fail, e.g. {sorted(set(tests))[:3]}: {cls}', st)
         ctx.sample(dict(state=sid, tests=obs['tests'], failures=obs['failures'], errors=obs['errors'], skipped=obs['skipped']), limit=4)
-    if not only and total < 5000:
+    if not only and total < 5000 and not ctx.violations:
         raise HarnessError(f'C13 exploration collapsed: {total} emitted tests ran')
     ctx.extra['emitted_tests_run'] = total
     ctx.extra['bound'] = 'max profile state x 15 option sets + baseline' + ('; thorough: every single shape group x 15 option sets' if ctx.thorough else '')
